@@ -23,7 +23,7 @@ RULE = ("family x parameters x formula class (CNF, OPB) x graph representation (
 ASSUMPTIONS = ["vmon/tt.py truth tables (self-checked)", "object enumerators in this module, written from the docstrings",
                "variable names reported by the formula identify the atoms (p_{i,j}, e_{u,v}, ...)"]
 REQUIRED = ["exact_cases", "satisfiable_cases", "unsatisfiable_cases", "sampled_cases", "opb_cases", "cnf_cases",
-            "networkx_inputs", "refused_expected", "graph_object_histories"] + ["family_" + f for f in
+            "networkx_inputs", "user_class_inputs", "refused_expected", "graph_object_histories"] + ["family_" + f for f in
             ("php", "gphp", "bphp", "rphp", "count", "matching", "subsetcard", "cliquecoloring")]
 CASE_TIMEOUT = {"quick": 300, "thorough": 1800}
 
@@ -141,7 +141,7 @@ def case_gphp(ctx, cls, L, R, masks, as_nx):
             for onto in (False, True):
                 G, E = S.bipartite_graph(L, R, mask, as_nx)
                 desc = "GraphPigeonholePrinciple(B(%d,%d,%r),functional=%s,onto=%s)[%s%s]" % (
-                    L, R, E, functional, onto, cls, ",nx" if as_nx else "")
+                    L, R, E, functional, onto, cls, S.rep_tag(as_nx))
                 F, exc = S.build(ctx, "gphp", desc, g.GraphPigeonholePrinciple, G, functional=functional,
                                  onto=onto, formula_class=K)
                 if F is None:
@@ -149,7 +149,7 @@ def case_gphp(ctx, cls, L, R, masks, as_nx):
                     continue
                 fam_count(ctx, "gphp", cls)
                 if as_nx:
-                    ctx.count("networkx_inputs")
+                    S.count_rep(ctx, as_nx)
                 if F.number_of_variables() != len(E):
                     ctx.violation("gphp:numvar", "%s has %d variables" % (desc, F.number_of_variables()))
                     continue
@@ -300,14 +300,14 @@ def case_matching(ctx, cls, n, masks, as_nx):
     g = gens()
     for mask in masks:
         G, E = S.simple_graph(n, mask, as_nx)
-        desc = "PerfectMatchingPrinciple(G(%d,%r))[%s%s]" % (n, E, cls, ",nx" if as_nx else "")
+        desc = "PerfectMatchingPrinciple(G(%d,%r))[%s%s]" % (n, E, cls, S.rep_tag(as_nx))
         F, exc = S.build(ctx, "matching", desc, g.PerfectMatchingPrinciple, G, formula_class=K)
         if F is None:
             raised(ctx, "matching", desc, exc)
             continue
         fam_count(ctx, "matching", cls)
         if as_nx:
-            ctx.count("networkx_inputs")
+            S.count_rep(ctx, as_nx)
         if F.number_of_variables() != len(E):
             ctx.violation("matching:numvar", "%s has %d variables" % (desc, F.number_of_variables()))
             continue
@@ -329,14 +329,14 @@ def case_subsetcard(ctx, cls, L, R, masks, as_nx):
     for mask in masks:
         for eq in (False, True):
             B, E = S.bipartite_graph(L, R, mask, as_nx)
-            desc = "SubsetCardinalityFormula(B(%d,%d,%r),equalities=%s)[%s%s]" % (L, R, E, eq, cls, ",nx" if as_nx else "")
+            desc = "SubsetCardinalityFormula(B(%d,%d,%r),equalities=%s)[%s%s]" % (L, R, E, eq, cls, S.rep_tag(as_nx))
             F, exc = S.build(ctx, "subsetcard", desc, g.SubsetCardinalityFormula, B, equalities=eq, formula_class=K)
             if F is None:
                 raised(ctx, "subsetcard", desc, exc)
                 continue
             fam_count(ctx, "subsetcard", cls)
             if as_nx:
-                ctx.count("networkx_inputs")
+                S.count_rep(ctx, as_nx)
             if F.number_of_variables() != len(E):
                 ctx.violation("subsetcard:numvar", "%s has %d variables" % (desc, F.number_of_variables()))
                 continue
@@ -515,7 +515,7 @@ def workload(tier, seed):
         for (L, R) in sides:
             allmasks = range(1 << (L * R))
             for ch in chunks(allmasks, 32):
-                for as_nx in (False, True):
+                for as_nx in (False, True, "duck"):
                     if as_nx and (L * R > (4 if quick else 6) or L * R == 0):
                         continue
                     yield "gphp", {"cls": cls, "L": L, "R": R, "masks": ch, "as_nx": as_nx}
@@ -534,6 +534,7 @@ def workload(tier, seed):
             if n <= 4:
                 for ch in chunks(range(1 << npairs), 64):
                     yield "matching", {"cls": cls, "n": n, "masks": ch, "as_nx": True}
+                    yield "matching", {"cls": cls, "n": n, "masks": ch, "as_nx": "duck"}
         if quick:
             masks = sorted({r.getrandbits(15) for _ in range(200)})
             for ch in chunks(masks, 25):
